@@ -29,3 +29,19 @@ Definition exE : senv :=
 Definition exV : pv := VObj "D" [("a", VList [VInt 1; VInt 2]); ("n", VObj "D" [("a", VList []); ("n", VNone)])].
 Example C02_nonvacuous : conf exE exV (SData "D") = true.
 Proof. vm_compute. reflexivity. Qed.
+
+(* first sentence of C02: only str/int/float/bool/None/list/dict (scalar keys) come out
+   whenever the schema has no Any leaf; the documented renderings being text or numbers and
+   enum values scalars are hypotheses about the stdlib environment *)
+From Verif Require Import TyBasic.
+Theorem C02_basic : forall (E: senv) (P: prims),
+  forallb (fun c => forallb (fun f => jsonable f.(sf_ty)) c.(sc_fields)) E = true ->
+  (forall k w, scalar_basic (P.(p_render) k w) = true) ->
+  (forall e m val, P.(p_enum_value) e m = Some val -> scalar_basic val = true) ->
+  forall (v: pv) (t: sty) (w: pv),
+    conf E v t = true -> jsonable t = true -> pk E P v (cp true t) = Ok w -> basic w = true.
+Proof.
+  intros E P H1 H2 H3 v t w HC HJ Hpk. rewrite (encode_is_ref E P v t HC) in Hpk.
+  exact (ref_enc_basic E P H1 H2 H3 v t w HC HJ Hpk).
+Qed.
+Print Assumptions C02_basic.
